@@ -1,4 +1,5 @@
 import Pamqp.Spec.Defs
+import Pamqp.Proofs.Order
 /-!
 # C12 — encoding is deterministic, order-independent and does not mutate its input
 Determinism and non-mutation are true of the pure model by construction (it is a function on
@@ -40,29 +41,40 @@ end
 nesting level: same bytes or the same exception -/
 theorem C12_perm_invariant (legacy : Bool) (v w : PyVal) (h : DPerm v w) (hk : KeysDistinct v) :
     Encode.tableValue legacy v = Encode.tableValue legacy w := by
-  sorry
+  exact DPerm.rec
+    (motive_1 := fun v w _ => KeysDistinct v → Encode.tableValue legacy v = Encode.tableValue legacy w)
+    (motive_2 := fun l₁ l₂ _ => KeysDistinctL l₁ → Encode.items legacy l₁ = Encode.items legacy l₂)
+    (motive_3 := fun l₁ l₂ _ => KeysDistinctE l₁ → Encode.entries legacy l₁ = Encode.entries legacy l₂)
+    (fun _ _ => rfl)
+    (fun _ ih hk => tableValue_list_congr legacy (ih hk))
+    (fun _ hp ih hk => tableValue_dict_congr legacy (ih hk.2) hp hk.1)
+    (fun _ => rfl)
+    (fun _ _ ih1 ih2 hk => items_cons_congr legacy (ih1 hk.1) (ih2 hk.2))
+    (fun _ => rfl)
+    (fun _ _ ih1 ih2 hk => entries_cons_congr legacy _ (ih1 hk.1) (ih2 hk.2))
+    h hk
 
 theorem C12_table_perm_invariant (legacy : Bool) (l₁ l₂ : List (Str × PyVal)) (h : l₁.Perm l₂)
     (hk : KeysDistinct (.dict l₁)) :
     Encode.fieldTable legacy (.dict l₁) = Encode.fieldTable legacy (.dict l₂) := by
-  sorry
+  exact fieldTable_perm legacy h hk.1
 
 /-- entries are emitted in ascending key order: the list the encoder concatenates is sorted -/
 theorem C12_sorted (legacy : Bool) (kvs : List (Str × PyVal)) :
     (List.mergeSort (Encode.entries legacy kvs) Encode.entryLe).Pairwise
       (fun a b => strLe a.1 b.1 = true) := by
-  sorry
+  exact sorted_entries_pairwise legacy kvs
 
 /-- and it is a permutation of the input entries (nothing lost, nothing invented) -/
 theorem C12_sorted_perm (legacy : Bool) (kvs : List (Str × PyVal)) :
     ((List.mergeSort (Encode.entries legacy kvs) Encode.entryLe).map (·.1)).Perm (kvs.map (·.1)) := by
-  sorry
+  exact sorted_entries_keys_perm legacy kvs
 
 /-- `strLe` is Python's `<=` on str: a total order on code-point lists -/
 theorem C12_order_total (a b : Str) : (strLe a b || strLe b a) = true := by
-  sorry
+  exact strLe_total a b
 
 theorem C12_order_antisymm (a b : Str) (h1 : strLe a b = true) (h2 : strLe b a = true) : a = b := by
-  sorry
+  exact strLe_antisymm a b h1 h2
 
 end Pamqp.Props
